@@ -218,7 +218,7 @@ class LocationProtocol(HDAP):
         request_id: Union[int, bytes],
         radio_ip: Union[bytes, RadioIP],
         result: Union[int, bytes] = 0,  # 0 = OK, SUCCESS RESULT
-        gpsdata: Union[bytes, GPSData] = GPSData.zero(),
+        gpsdata: Optional[Union[bytes, GPSData]] = None,
         is_reliable: bool = False,
     ):
         super().__init__(is_reliable=is_reliable)
@@ -245,7 +245,13 @@ class LocationProtocol(HDAP):
             if isinstance(result, int)
             else int.from_bytes(result, byteorder="big")
         )
-        self.gpsdata: GPSData = (
+        if (
+            gpsdata is None
+            and self.specific_service == LocationProtocolSpecificService.StandardReport
+        ):
+            # only the report carries GPS data, empty default is created per instance (not once at import)
+            gpsdata = GPSData.zero()
+        self.gpsdata: Optional[GPSData] = (
             GPSData.from_bytes(gpsdata) if isinstance(gpsdata, bytes) else gpsdata
         )
 
